@@ -2725,7 +2725,11 @@ class VM:
                 raise JSError(exc)
             elif isinstance(exc, JSObject):
                 msg = exc.get("message")
-                raise JSError(to_string(msg) if msg else "Error")
+                name = exc.get("name")
+                raise JSError(
+                    to_string(msg) if msg else "Error",
+                    name if isinstance(name, str) and name else "Error",
+                )
             else:
                 raise JSError(to_string(exc))
 
